@@ -1,6 +1,7 @@
 """C13 -- expand_message / hash_to_field: guard, absorbed-sequence structure, block
 splitting, field reduction constants and sibling agreement of the two from_okm."""
 import re
+import exp
 
 import construles as C
 import mathlib as M
@@ -89,7 +90,8 @@ def dst_prime_tail(items):
 
 
 def rule_xmd(fx, rep):
-    b = fx.body(XMD)
+    import inline as INL
+    b = INL.inlined(fx, XMD, lambda q: INL.is_private_helper(fx, q))
     if b is None:
         rep.fail('GUARD', 'xmd:anchor', 'ExpandMsgXmd::expand_message not found')
         return
@@ -523,9 +525,83 @@ def rule_fq2(fx, rep):
     rep.check(ok, 'WIRE', 'FromRO:blanket-forwards', 'FromRO for base fields is from_okm on the same bytes', 'the blanket FromRO impl does not simply forward to BaseFromRO::from_okm')
 
 
+XMD_SCENARIOS = [
+    # (OutputSize, BlockSize, len_in_bytes): SHA-256-like, SHA-512-like, SHA-384-like, SHA3-256-like sizes, and a
+    # 1-/2-byte-output abstract hash so that the 255-block boundary is reached with few steps
+    (32, 64, 0), (32, 64, 1), (32, 64, 31), (32, 64, 32), (32, 64, 33), (32, 64, 64), (32, 64, 65), (32, 64, 128),
+    (64, 128, 48), (64, 128, 64), (64, 128, 96), (64, 128, 130), (48, 128, 100), (28, 64, 60), (32, 136, 70),
+    (1, 3, 254), (1, 3, 255), (1, 3, 256), (1, 3, 300), (2, 5, 509), (2, 5, 510), (2, 5, 511),
+]
+
+
+def rule_xmd_semantic(fx, rep):
+    """expand_message_xmd interpreted over byte strings (xmd.py): for every scenario the returned bytes equal
+    RFC 9380 5.3.1 built in the same domain, or the call aborts exactly when ell > 255."""
+    import xmd
+    if fx.body(XMD) is None:
+        rep.fail('BYTES', 'xmd:anchor', 'ExpandMsgXmd::expand_message not found')
+        return
+    rep.fn(XMD)
+    where = fx.fn(XMD)['span']
+    n = 0
+    for out, block, ln in XMD_SCENARIOS:
+        inst = 'xmd:out=%d,block=%d,len=%d' % (out, block, ln)
+        T = xmd.Table()
+        R = xmd.Run(fx, XMD, out, block, ln, T)
+        try:
+            res = R.run()
+        except (exp.NotDerivable, exp.Budget) as e:
+            rep.fail('BYTES', inst, 'not derivable: %s at %s' % (e, getattr(e, 'where', None)), where, construct=XMD)
+            continue
+        rep.sites(R.call_sites)
+        n += 1
+        oc = xmd.outcome(res)
+        want = xmd.spec_xmd(out, block, ln, T)
+        ell = (ln + out - 1) // out
+        if want == 'abort':
+            rep.check(oc[0] == 'abort', 'BYTES', inst, 'ell = %d > 255: the call aborts' % ell,
+                      'a request for %d blocks (more than 255) returns %s instead of aborting' % (ell, '%d bytes' % len(oc[1]) if oc[0] == 'bytes' else oc[0]), where, construct=XMD)
+        else:
+            if oc[0] == 'bytes':
+                ok = oc[1] == want
+                why = '' if ok else xmd.describe_diff(oc[1], want, T)
+            else:
+                ok = False
+                why = 'aborts although ell = %d <= 255' % ell if oc[0] == 'abort' else 'does not return one byte string: %r' % (oc,)
+            rep.check(ok, 'BYTES', inst, '%d bytes = (b_1 || .. || b_%d)[0..%d] with b_0 = H(Z_pad(%d) || msg || I2OSP(len,2) || 0 || DST\'), b_1 = H(b_0 || 1 || DST\'), b_i = H((b_0 xor b_(i-1)) || i || DST\')' % (ln, ell, ln, block),
+                      why, where, construct=XMD)
+    rep.floor('BYTES', 'xmd-scenarios', n, len(XMD_SCENARIOS))
+
+
+def rule_xof_semantic(fx, rep):
+    import xmd
+    if fx.body(XOF) is None:
+        rep.fail('BYTES', 'xof:anchor', 'ExpandMsgXof::expand_message not found')
+        return
+    rep.fn(XOF)
+    where = fx.fn(XOF)['span']
+    n = 0
+    for ln in (0, 1, 32, 77, 256, 1000):
+        T = xmd.Table()
+        R = xmd.Run(fx, XOF, 0, 0, ln, T)
+        try:
+            res = R.run()
+        except (exp.NotDerivable, exp.Budget) as e:
+            rep.fail('BYTES', 'xof:len=%d' % ln, 'not derivable: %s at %s' % (e, getattr(e, 'where', None)), where, construct=XOF)
+            continue
+        rep.sites(R.call_sites)
+        n += 1
+        oc = xmd.outcome(res)
+        want = xmd.spec_xof(ln, T)
+        ok = oc[0] == 'bytes' and oc[1] == want
+        rep.check(ok, 'BYTES', 'xof:len=%d' % ln, 'H(msg || I2OSP(len,2) || DST || I2OSP(len(DST),1)) squeezed to len bytes',
+                  xmd.describe_diff(oc[1], want, T) if oc[0] == 'bytes' else 'does not return one byte string: %r' % (oc[:1],), where, construct=XOF)
+    rep.floor('BYTES', 'xof-scenarios', n, 6)
+
+
 def rules(fx, rep):
-    rule_xmd(fx, rep)
-    rule_xof(fx, rep)
+    rule_xmd_semantic(fx, rep)
+    rule_xof_semantic(fx, rep)
     rule_h2f(fx, rep)
     rule_from_okm(fx, rep)
     rule_fq2(fx, rep)
@@ -534,10 +610,10 @@ def rules(fx, rep):
 def main(tier, t0):
     return common.standard_main(
         PROP, tier, t0, rules, 'other',
-        'Def-use (origin-term) analysis of expand_message_xmd / _xof, hash_to_field, both from_okm and FromRO for Fq2: the abort guard is '
-        'exactly ell > 255 with ell = ceil(len/OutputSize) and dominates all hashing; each hash invocation absorbs the RFC 9380 sequence by role '
-        '(Z_pad typed by the hash\'s BlockSize, msg, I2OSP(len,2), 0, DST_prime; b_0||1; strxor buffer||idx+1; loop 1..ell; truncate); field hashing '
+        'expand_message_xmd / _xof are interpreted over a byte-string domain (opaque msg/dst segments, uninterpreted hash, symbolic digest bytes, XOR) for 22 + 6 '
+        'scenarios of (OutputSize, BlockSize, len): the returned bytes equal the RFC 9380 5.3 definition built in the same domain, the call aborts exactly when ell > 255 '
+        '(boundary scenarios ell = 255 / 256), whatever the shape of the code (chained calls, input statements, helpers, loops or iterators); hash_to_field, from_okm, Fq2 by def-use analysis: field hashing '
         'slices consecutive Length-byte blocks; from_okm splits L bytes into two zero-padded big-endian halves, scales the FIRST by the constant '
         '2^(8 L/2) mod p (value checked) and adds the second; Fq2 = (block 0, block 1). NOT decided: byte-exact digest output as values.',
         ['rustc MIR/type information', 'digest / generic-array / ff crates meet their documented contracts (chain, result, read_be, from_repr)'],
-        ['structure of absorbed sequences is matched by role; a re-architected but equivalent implementation would be reported as not recognised (fail closed)'])
+        ['message expansion decided for the listed size scenarios (the code is parametric in the sizes); tags of at most 255 bytes (the property\'s domain)'])
